@@ -6,6 +6,7 @@ package main
 import (
 	"context"
 	"fmt"
+	"runtime"
 	"strings"
 	"time"
 
@@ -21,6 +22,7 @@ type encCase struct {
 	msg     string
 	attrs   []gattr
 	caller  bool
+	pc      uintptr // a real program counter for the caller field (0: the zero frame)
 	tagW    int
 	minW    int
 	payload []byte
@@ -65,7 +67,7 @@ func encRun(r *run, prop string, c *encCase) {
 				panicked = fmt.Sprint(p)
 			}
 		}()
-		l.(slog.LogSlogAware).WriteThru(context.Background(), slog.Level(c.lvl), c.ts, 0, c.msg, toAttrs(c.attrs))
+		l.(slog.LogSlogAware).WriteThru(context.Background(), slog.Level(c.lvl), c.ts, c.pc, c.msg, toAttrs(c.attrs))
 	}()
 	w := rec.take()
 	c.writes = len(w)
@@ -82,6 +84,11 @@ func encRun(r *run, prop string, c *encCase) {
 	callerTok := "-"
 	if c.caller {
 		callerTok = "x:0:x:x"
+		if c.pc != 0 {
+			// the frame as the runtime resolves it; the file as the privacy policy (decided by C18) shows it
+			frame, _ := runtime.CallersFrames([]uintptr{c.pc}).Next()
+			callerTok = fmt.Sprintf("%s:%d:%s:%s", hxs(slog.Safety(frame.File)), frame.Line, hxs(frame.Function), hxs(frame.Function))
+		}
 	}
 	line := fmt.Sprintf("ENC %s %d %s %s %s %s %d %d %s", c.format, c.lvl, hxs(c.tsText), hxs(c.name), hxs(c.msg), callerTok, c.tagW, c.minW,
 		strings.Join(attrsTokens(c.attrs), " "))
